@@ -182,11 +182,11 @@ def isCkpt : Entry → Bool
 
 theorem applyEntry_md (s : Store) (e : Entry) : (applyEntry s e).md = metaApply s.md e := by
   cases e <;> simp only [applyEntry, metaApply]
-  split <;> rfl
+  split <;> (try split) <;> rfl
 
 theorem applyEntry_cache (s : Store) (e : Entry) : (applyEntry s e).cache = s.cache := by
   cases e <;> simp only [applyEntry]
-  split <;> rfl
+  split <;> (try split) <;> rfl
 
 theorem replay_md (s : Store) (es : List Entry) : (replay s es).md = replayMeta s.md es := by
   induction es generalizing s with
@@ -927,6 +927,911 @@ theorem Sys.op_immediate (crc : Bytes → Nat) (enc : Entry → Bytes) (sy : Sys
   simp only [Sys.op, Sys.log, hm]
   exact foldl_append_immediate crc enc _ sy.wal h0
 
+/-! #### the entity index -/
+
+theorem idxGetAux_some {v : List (Bytes × Bool)} {k : Bytes} {n i : Nat}
+    (h : idxGetAux v k n = some i) : n ≤ i ∧ v[i - n]? = some (k, true) := by
+  induction v generalizing n with
+  | nil => simp [idxGetAux] at h
+  | cons p r ih =>
+    obtain ⟨k', live⟩ := p
+    rw [idxGetAux] at h
+    split at h
+    · rename_i hc
+      injection h with h
+      subst h
+      obtain ⟨h1, h2⟩ := hc
+      subst h2
+      simp [h1]
+    · obtain ⟨h1, h2⟩ := ih h
+      refine ⟨by omega, ?_⟩
+      have : i - n = (i - (n + 1)) + 1 := by omega
+      rw [this, List.getElem?_cons_succ]
+      exact h2
+
+theorem idxGet_some {v : List (Bytes × Bool)} {k : Bytes} {i : Nat} (h : idxGet v k = some i) :
+    v[i]? = some (k, true) := by
+  have := (idxGetAux_some h).2
+  simpa using this
+
+theorem idxGet_inj {v : List (Bytes × Bool)} {k1 k2 : Bytes} {i : Nat}
+    (h1 : idxGet v k1 = some i) (h2 : idxGet v k2 = some i) : k1 = k2 := by
+  have a := idxGet_some h1
+  have b := idxGet_some h2
+  rw [a] at b
+  injection b with b
+  injection b
+
+theorem idxGetAux_none {v : List (Bytes × Bool)} {k : Bytes} {n : Nat} :
+    idxGetAux v k n = none ↔ (k, true) ∉ v := by
+  induction v generalizing n with
+  | nil => simp [idxGetAux]
+  | cons p r ih =>
+    obtain ⟨k', live⟩ := p
+    rw [idxGetAux]
+    split
+    · rename_i hc
+      obtain ⟨h1, h2⟩ := hc
+      subst h2
+      simp [h1]
+    · rename_i hc
+      rw [ih]
+      constructor
+      · intro h hm
+        rcases List.mem_cons.mp hm with e | e
+        · injection e with e1 e2
+          exact hc ⟨e2.symm, e1.symm⟩
+        · exact h e
+      · intro h hm
+        exact h (List.mem_cons_of_mem _ hm)
+
+theorem idxGet_none_iff {v : List (Bytes × Bool)} {k : Bytes} : idxGet v k = none ↔ (k, true) ∉ v :=
+  idxGetAux_none
+
+theorem idxGetAux_append (v w : List (Bytes × Bool)) (k : Bytes) (n : Nat) :
+    idxGetAux (v ++ w) k n =
+      match idxGetAux v k n with
+      | some i => some i
+      | none => idxGetAux w k (n + v.length) := by
+  induction v generalizing n with
+  | nil => simp [idxGetAux]
+  | cons p r ih =>
+    obtain ⟨k', live⟩ := p
+    rw [List.cons_append, idxGetAux, idxGetAux]
+    split
+    · rfl
+    · rw [ih]
+      have : n + 1 + r.length = n + (r.length + 1) := by omega
+      simp only [List.length_cons, this]
+
+theorem idxGet_append_ne (v : List (Bytes × Bool)) (k k' : Bytes) (hne : k ≠ k') :
+    idxGet (v ++ [(k, true)]) k' = idxGet v k' := by
+  unfold idxGet
+  rw [idxGetAux_append]
+  cases h : idxGetAux v k' 0 with
+  | some i => rfl
+  | none => simp [idxGetAux, hne]
+
+theorem idxGet_append_self (v : List (Bytes × Bool)) (k : Bytes) (h : idxGet v k = none) :
+    idxGet (v ++ [(k, true)]) k = some v.length := by
+  unfold idxGet at *
+  rw [idxGetAux_append, h]
+  simp [idxGetAux]
+
+theorem idxGetOrCreate_get (v : List (Bytes × Bool)) (k : Bytes) :
+    idxGet (idxGetOrCreate v k).2 k = some (idxGetOrCreate v k).1 := by
+  unfold idxGetOrCreate
+  cases h : idxGet v k with
+  | some i => simpa using h
+  | none => simpa using idxGet_append_self v k h
+
+theorem idxGetOrCreate_get_ne (v : List (Bytes × Bool)) (k k' : Bytes) (hne : k ≠ k') :
+    idxGet (idxGetOrCreate v k).2 k' = idxGet v k' := by
+  unfold idxGetOrCreate
+  cases h : idxGet v k with
+  | some i => rfl
+  | none => simpa using idxGet_append_ne v k k' hne
+
+theorem idxGetOrCreate_idem (v : List (Bytes × Bool)) (k : Bytes) :
+    idxGetOrCreate (idxGetOrCreate v k).2 k = idxGetOrCreate v k := by
+  have h := idxGetOrCreate_get v k
+  generalize idxGetOrCreate v k = p at h ⊢
+  unfold idxGetOrCreate
+  rw [h]
+
+theorem idxGetAux_set_ne (v : List (Bytes × Bool)) (k k' : Bytes) (j n : Nat) (hne : k ≠ k')
+    (hj : v[j]? = some (k, true)) : idxGetAux (v.set j (k, false)) k' n = idxGetAux v k' n := by
+  induction v generalizing j n with
+  | nil => simp at hj
+  | cons p r ih =>
+    cases j with
+    | zero =>
+      simp only [List.getElem?_cons_zero, Option.some.injEq] at hj
+      subst hj
+      simp [List.set, idxGetAux, hne]
+    | succ j =>
+      obtain ⟨k0, live⟩ := p
+      simp only [List.getElem?_cons_succ] at hj
+      simp only [List.set, idxGetAux]
+      rw [ih j (n + 1) hj]
+
+/-- live entries of the vocabulary carry pairwise different keys -/
+def LiveNodup (v : List (Bytes × Bool)) : Prop :=
+  ∀ (i j : Nat) (k : Bytes), v[i]? = some (k, true) → v[j]? = some (k, true) → i = j
+
+theorem idxRemove_get_ne (v : List (Bytes × Bool)) (k k' : Bytes) (hne : k ≠ k') :
+    idxGet (idxRemove v k) k' = idxGet v k' := by
+  unfold idxRemove
+  cases h : idxGet v k with
+  | none => rfl
+  | some i => exact idxGetAux_set_ne v k k' i 0 hne (idxGet_some h)
+
+theorem getElem?_lt {α} {l : List α} {i : Nat} {a : α} (h : l[i]? = some a) : i < l.length := by
+  rcases Nat.lt_or_ge i l.length with h' | h'
+  · exact h'
+  · rw [List.getElem?_eq_none h'] at h; cases h
+
+theorem idxRemove_get_self (v : List (Bytes × Bool)) (k : Bytes) (hn : LiveNodup v) :
+    idxGet (idxRemove v k) k = none := by
+  unfold idxRemove
+  cases h : idxGet v k with
+  | none => exact h
+  | some i =>
+    rw [idxGet_none_iff]
+    intro hm
+    obtain ⟨j, hj⟩ := List.getElem?_of_mem hm
+    have hi := idxGet_some h
+    by_cases e : i = j
+    · subst e
+      rw [List.getElem?_set_self (getElem?_lt hi)] at hj
+      injection hj with hj
+      injection hj with _ hj
+      cases hj
+    · rw [List.getElem?_set_ne e] at hj
+      exact e (hn i j k hi hj)
+
+theorem liveNodup_append {v : List (Bytes × Bool)} {k : Bytes} (hn : LiveNodup v) (h : idxGet v k = none) :
+    LiveNodup (v ++ [(k, true)]) := by
+  rw [idxGet_none_iff] at h
+  have key : ∀ (i : Nat) (k' : Bytes), (v ++ [(k, true)])[i]? = some (k', true) →
+      (i < v.length ∧ v[i]? = some (k', true)) ∨ (i = v.length ∧ k' = k) := by
+    intro i k' hi
+    rcases Nat.lt_or_ge i v.length with hl | hl
+    · rw [List.getElem?_append_left hl] at hi
+      exact .inl ⟨hl, hi⟩
+    · rw [List.getElem?_append_right hl] at hi
+      have hlt := getElem?_lt hi
+      simp only [List.length_singleton] at hlt
+      have : i - v.length = 0 := by omega
+      rw [this] at hi
+      simp only [List.getElem?_cons_zero, Option.some.injEq, Prod.mk.injEq, and_true] at hi
+      exact .inr ⟨by omega, hi.symm⟩
+  intro i j k' hi hj
+  rcases key i k' hi with ⟨_, a⟩ | ⟨a, a'⟩ <;> rcases key j k' hj with ⟨_, b⟩ | ⟨b, b'⟩
+  · exact hn i j k' a b
+  · subst b'; exact absurd (List.mem_of_getElem? a) h
+  · subst a'; exact absurd (List.mem_of_getElem? b) h
+  · omega
+
+theorem liveNodup_getOrCreate {v : List (Bytes × Bool)} (hn : LiveNodup v) (k : Bytes) :
+    LiveNodup (idxGetOrCreate v k).2 := by
+  unfold idxGetOrCreate
+  cases h : idxGet v k with
+  | some i => exact hn
+  | none => exact liveNodup_append hn h
+
+theorem liveNodup_set {v : List (Bytes × Bool)} (hn : LiveNodup v) (i : Nat) (k : Bytes) :
+    LiveNodup (v.set i (k, false)) := by
+  intro a b k' ha hb
+  have f : ∀ c : Nat, (v.set i (k, false))[c]? = some (k', true) → v[c]? = some (k', true) := by
+    intro c hc
+    by_cases e : i = c
+    · subst e
+      have hl : i < v.length := by simpa using getElem?_lt hc
+      rw [List.getElem?_set_self hl] at hc
+      injection hc with hc; injection hc with _ hc; cases hc
+    · rwa [List.getElem?_set_ne e] at hc
+  exact hn a b k' (f a ha) (f b hb)
+
+theorem liveNodup_remove {v : List (Bytes × Bool)} (hn : LiveNodup v) (k : Bytes) :
+    LiveNodup (idxRemove v k) := by
+  unfold idxRemove
+  cases h : idxGet v k with
+  | none => exact hn
+  | some i => exact liveNodup_set hn i k
+
+/-! #### the overlay invariant: what the embedding slab holds for a live `emb:` key is the
+    `_embedding` of the key's metadata value -/
+
+def SlabInv (s : Store) : Prop :=
+  ∀ (k : Bytes) (id : Nat) (vec : Bytes), classify k = .embedding → idxGet s.vocab k = some id →
+    aget s.slab id = some vec → ∃ v, aget s.md k = some v ∧ v.emb = some vec
+
+structure Good (s : Store) : Prop where
+  nodup : LiveNodup s.vocab
+  slab : SlabInv s
+
+/-- the full observable image of the durable key classes agrees with a key → value map -/
+def FullEq (r : Store) (m : List (Bytes × Val)) : Prop :=
+  ∀ k, isCacheKey k = false → get r k = aget m k
+
+theorem good_empty : Good Store.empty := by
+  refine ⟨?_, ?_⟩
+  · intro i j k h; simp [Store.empty] at h
+  · intro k id vec _ h; simp [Store.empty, idxGet, idxGetAux] at h
+
+/-- **with the invariant, `get` is the metadata map for every durable key class** -/
+theorem good_get {s : Store} (hg : Good s) (k : Bytes) (hc : isCacheKey k = false) :
+    get s k = aget s.md k := by
+  unfold isCacheKey at hc
+  have hc' : classify k ≠ .cache := by simpa using hc
+  unfold get
+  cases hk : classify k <;> simp only [] <;> try (first | rfl | exact absurd hk hc')
+  cases hi : idxGet s.vocab k with
+  | none => rfl
+  | some id =>
+    simp only []
+    cases hs : aget s.slab id with
+    | none => rfl
+    | some vec =>
+      obtain ⟨v, hv, he⟩ := hg.slab k id vec hk hi hs
+      obtain ⟨b, e⟩ := v
+      simp only [] at he
+      subst he
+      simp [hv]
+
+theorem good_fullEq {s : Store} (hg : Good s) {m : List (Bytes × Val)} (h : MetaEq s.md m) : FullEq s m :=
+  fun k hc => (good_get hg k hc).trans (h k)
+
+/-- `Good` does not look at the cache -/
+theorem good_of_eq {a b : Store} (hg : Good a) (h1 : b.vocab = a.vocab) (h2 : b.slab = a.slab)
+    (h3 : b.md = a.md) : Good b := by
+  refine ⟨by rw [h1]; exact hg.nodup, ?_⟩
+  intro k id vec hk hi hs
+  rw [h1] at hi; rw [h2] at hs; rw [h3]
+  exact hg.slab k id vec hk hi hs
+
+theorem slabPut_get_self (sl : List (Nat × Bytes)) (id : Nat) (vec : Bytes) :
+    aget (slabPut sl id vec) id = if dimOk vec then some vec else none := by
+  unfold slabPut
+  split
+  · exact aget_aset_eq _ _ _
+  · exact aget_aerase_eq _ _
+
+theorem slabPut_get_ne (sl : List (Nat × Bytes)) (id id' : Nat) (vec : Bytes) (hne : id ≠ id') :
+    aget (slabPut sl id vec) id' = aget sl id' := by
+  unfold slabPut
+  split
+  · exact aget_aset_ne _ _ _ _ hne
+  · exact aget_aerase_ne _ _ _ hne
+
+/-- the slab after a put: the entry of the key's id is the usable vector of the value, or absent -/
+def putSlab (sl : List (Nat × Bytes)) (id : Nat) (e : Option Bytes) : List (Nat × Bytes) :=
+  match e with
+  | some vec => slabPut sl id vec
+  | none => aerase sl id
+
+theorem putSlab_get_self (sl : List (Nat × Bytes)) (id : Nat) (e : Option Bytes) (vec : Bytes)
+    (h : aget (putSlab sl id e) id = some vec) : e = some vec := by
+  cases e with
+  | none => simp [putSlab, aget_aerase_eq] at h
+  | some w =>
+    simp only [putSlab, slabPut_get_self] at h
+    split at h
+    · injection h with h; rw [h]
+    · cases h
+
+theorem putSlab_get_ne (sl : List (Nat × Bytes)) (id id' : Nat) (e : Option Bytes) (hne : id ≠ id') :
+    aget (putSlab sl id e) id' = aget sl id' := by
+  cases e with
+  | none => exact aget_aerase_ne _ _ _ hne
+  | some w => exact slabPut_get_ne _ _ _ _ hne
+
+/-- a put that goes through the entity index, normal form -/
+def putEmb (s : Store) (k : Bytes) (v : Val) : Store :=
+  { s with md := aset s.md k v, vocab := (idxGetOrCreate s.vocab k).2,
+           slab := putSlab s.slab (idxGetOrCreate s.vocab k).1 v.emb }
+
+theorem put_emb (s : Store) (k : Bytes) (v : Val) (hk : classify k = .embedding) :
+    put s k v = putEmb s k v := by
+  unfold put putEmb putSlab
+  simp only [hk]
+  cases v.emb <;> rfl
+
+theorem putDurable_snd_emb (s : Store) (k : Bytes) (v : Val) (hk : classify k = .embedding) :
+    (putDurable s k v).2 = putEmb s k v := by
+  have hc : isCacheKey k = false := by simp [isCacheKey, hk]
+  unfold putDurable
+  simp only [hc]
+  cases hv : v.emb with
+  | none => exact put_emb s k v hk
+  | some vec =>
+    show put _ k v = _
+    rw [put_emb _ k v hk]
+    unfold putEmb
+    simp only [idxGetOrCreate_idem]
+
+theorem putDurable_snd_plain (s : Store) (k : Bytes) (v : Val) (hk : classify k ≠ .embedding)
+    (hc : isCacheKey k = false) :
+    (putDurable s k v).2 =
+      { s with md := aset s.md k v,
+               vocab := if v.emb.isSome then (idxGetOrCreate s.vocab k).2 else s.vocab } := by
+  have hc' : classify k ≠ .cache := by simpa [isCacheKey] using hc
+  unfold putDurable
+  simp only [hc]
+  cases hv : v.emb with
+  | none =>
+    show put s k v = _
+    unfold put
+    cases hk' : classify k <;> simp_all
+  | some vec =>
+    show put _ k v = _
+    unfold put
+    cases hk' : classify k <;> simp_all
+
+theorem good_putEmb {s : Store} (hg : Good s) (k : Bytes) (v : Val) : Good (putEmb s k v) := by
+  refine ⟨liveNodup_getOrCreate hg.nodup k, ?_⟩
+  intro k1 id1 vec1 hk1 hi hs
+  simp only [putEmb] at hi hs ⊢
+  by_cases e : k = k1
+  · subst e
+    rw [idxGetOrCreate_get] at hi
+    injection hi with hi
+    subst hi
+    have := putSlab_get_self _ _ _ _ hs
+    exact ⟨v, aget_aset_eq _ _ _, this⟩
+  · have hne : (idxGetOrCreate s.vocab k).1 ≠ id1 := by
+      intro h
+      rw [← h] at hi
+      exact e (idxGet_inj (idxGetOrCreate_get s.vocab k) hi)
+    rw [idxGetOrCreate_get_ne _ _ _ e] at hi
+    rw [putSlab_get_ne _ _ _ _ hne] at hs
+    rw [aget_aset_ne _ _ _ _ e]
+    exact hg.slab k1 id1 vec1 hk1 hi hs
+
+/-- a write to the metadata map of a key outside the `emb:` class, possibly allocating an id -/
+theorem good_plain_set {s : Store} (hg : Good s) (k : Bytes) (v : Val) (hk : classify k ≠ .embedding)
+    (b : Bool) :
+    Good { s with md := aset s.md k v, vocab := if b then (idxGetOrCreate s.vocab k).2 else s.vocab } := by
+  refine ⟨?_, ?_⟩
+  · simp only []
+    split
+    · exact liveNodup_getOrCreate hg.nodup k
+    · exact hg.nodup
+  · intro k1 id1 vec1 hk1 hi hs
+    have e : k ≠ k1 := by intro h; subst h; exact hk hk1
+    simp only [] at hi hs ⊢
+    rw [aget_aset_ne _ _ _ _ e]
+    have hi' : idxGet s.vocab k1 = some id1 := by
+      split at hi
+      · rwa [idxGetOrCreate_get_ne _ _ _ e] at hi
+      · exact hi
+    exact hg.slab k1 id1 vec1 hk1 hi' hs
+
+theorem good_putDurable {s : Store} (hg : Good s) (k : Bytes) (v : Val) : Good (putDurable s k v).2 := by
+  by_cases hc : isCacheKey k = true
+  · have hk : classify k = .cache := by simpa [isCacheKey] using hc
+    have : (putDurable s k v).2 = { s with cache := aset s.cache k v } := by
+      simp [putDurable, hc, put, hk]
+    rw [this]
+    exact good_of_eq hg rfl rfl rfl
+  · have hc0 : isCacheKey k = false := by simpa using hc
+    by_cases hk : classify k = .embedding
+    · rw [putDurable_snd_emb s k v hk]
+      exact good_putEmb hg k v
+    · rw [putDurable_snd_plain s k v hk hc0]
+      exact good_plain_set hg k v hk _
+
+/-- what the three records of a delete do, normal form -/
+def delApplied (s : Store) (k : Bytes) : Store :=
+  { s with md := aerase s.md k, vocab := idxRemove s.vocab k,
+           slab := match idxGet s.vocab k with
+             | some id => aerase s.slab id
+             | none => s.slab }
+
+theorem good_delApplied {s : Store} (hg : Good s) (k : Bytes) : Good (delApplied s k) := by
+  refine ⟨liveNodup_remove hg.nodup k, ?_⟩
+  intro k1 id1 vec1 hk1 hi hs
+  simp only [delApplied] at hi hs ⊢
+  by_cases e : k = k1
+  · subst e
+    rw [idxRemove_get_self _ _ hg.nodup] at hi
+    cases hi
+  · rw [idxRemove_get_ne _ _ _ e] at hi
+    rw [aget_aerase_ne _ _ _ e]
+    have hs' : aget s.slab id1 = some vec1 := by
+      cases hik : idxGet s.vocab k with
+      | none => rw [hik] at hs; exact hs
+      | some id =>
+        rw [hik] at hs
+        simp only [] at hs
+        have hne : id ≠ id1 := by
+          intro h; subst h; exact e (idxGet_inj hik hi)
+        rwa [aget_aerase_ne _ _ _ hne] at hs
+    exact hg.slab k1 id1 vec1 hk1 hi hs'
+
+theorem delete_emb (s : Store) (k : Bytes) (hk : classify k = .embedding) :
+    (delete s k).1 = delApplied s k := by
+  unfold delete
+  by_cases he : exists_ s k = true
+  · simp only [he, hk]
+    unfold delApplied
+    rfl
+  · have he0 : exists_ s k = false := by simpa using he
+    simp only [he0]
+    unfold exists_ at he0
+    simp only [hk, Bool.or_eq_false_iff] at he0
+    have h1 : idxGet s.vocab k = none := by simpa using he0.1
+    have h2 : aget s.md k = none := by simpa using he0.2
+    unfold delApplied idxRemove
+    simp only [h1, aerase_of_aget_none _ _ h2]
+    rfl
+
+theorem delete_plain (s : Store) (k : Bytes) (hk : classify k ≠ .embedding) (hc : isCacheKey k = false) :
+    (delete s k).1 = { s with md := aerase s.md k } := by
+  have hc' : classify k ≠ .cache := by simpa [isCacheKey] using hc
+  unfold delete
+  by_cases he : exists_ s k = true
+  · simp only [he]
+    cases hk' : classify k <;> simp_all
+  · have he0 : exists_ s k = false := by simpa using he
+    simp only [he0]
+    rw [aerase_of_aget_none _ _ (exists_false_md s k hc he0)]
+    rfl
+
+theorem good_delete {s : Store} (hg : Good s) (k : Bytes) : Good (delete s k).1 := by
+  by_cases hc : isCacheKey k = true
+  · have hk : classify k = .cache := by simpa [isCacheKey] using hc
+    have : (delete s k).1.vocab = s.vocab ∧ (delete s k).1.slab = s.slab ∧ (delete s k).1.md = s.md := by
+      unfold delete
+      split <;> simp [hk]
+    exact good_of_eq hg this.1 this.2.1 this.2.2
+  · have hc0 : isCacheKey k = false := by simpa using hc
+    by_cases hk : classify k = .embedding
+    · rw [delete_emb s k hk]; exact good_delApplied hg k
+    · rw [delete_plain s k hk hc0]
+      refine ⟨hg.nodup, ?_⟩
+      intro k1 id1 vec1 hk1 hi hs
+      have e : k ≠ k1 := by intro h; subst h; exact hk hk1
+      simp only [] at hi hs ⊢
+      rw [aget_aerase_ne _ _ _ e]
+      exact hg.slab k1 id1 vec1 hk1 hi hs
+
+theorem step_delete_snd (s : Store) (k : Bytes) : (step s (.delete k)).2 = (delete s k).1 := by
+  simp only [step, deleteDurable]; split <;> rfl
+
+theorem good_step {s : Store} (hg : Good s) (op : Op) : Good (step s op).2 := by
+  cases op with
+  | put k v => exact good_putDurable hg k v
+  | delete k => rw [step_delete_snd]; exact good_delete hg k
+
+theorem good_runOps {s : Store} (hg : Good s) (ops : List Op) : Good (runOps s ops).2 := by
+  induction ops generalizing s with
+  | nil => exact hg
+  | cons op ops ih => rw [runOps_cons]; exact ih (good_step hg op)
+
+/-! #### replay preserves the overlay invariant, record by record -/
+
+theorem applyEntry_metaSet (s : Store) (k : Bytes) (v : Val) :
+    applyEntry s (.metaSet k v) =
+      if classify k = .embedding ∨ v.emb.isSome then putEmb s k v else { s with md := aset s.md k v } := by
+  simp only [applyEntry, putEmb, putSlab]
+  cases hv : v.emb with
+  | none =>
+    simp only [Option.isSome_none, Bool.false_eq_true, or_false]
+  | some vec => simp
+
+theorem good_metaSet {s : Store} (hg : Good s) (k : Bytes) (v : Val) : Good (applyEntry s (.metaSet k v)) := by
+  rw [applyEntry_metaSet]
+  split
+  · exact good_putEmb hg k v
+  · rename_i h
+    have hk : classify k ≠ .embedding := fun e => h (.inl e)
+    have := good_plain_set hg k v hk false
+    simpa using this
+
+theorem good_embDel {s : Store} (hg : Good s) (id : Nat) : Good (applyEntry s (.embDel id)) := by
+  refine ⟨hg.nodup, ?_⟩
+  intro k1 id1 vec1 hk1 hi hs
+  simp only [applyEntry] at hi hs ⊢
+  by_cases e : id = id1
+  · subst e; rw [aget_aerase_eq] at hs; cases hs
+  · rw [aget_aerase_ne _ _ _ e] at hs
+    exact hg.slab k1 id1 vec1 hk1 hi hs
+
+theorem good_entRemove {s : Store} (hg : Good s) (k : Bytes) : Good (applyEntry s (.entRemove k)) := by
+  refine ⟨liveNodup_remove hg.nodup k, ?_⟩
+  intro k1 id1 vec1 hk1 hi hs
+  simp only [applyEntry] at hi hs ⊢
+  by_cases e : k = k1
+  · subst e; rw [idxRemove_get_self _ _ hg.nodup] at hi; cases hi
+  · rw [idxRemove_get_ne _ _ _ e] at hi
+    exact hg.slab k1 id1 vec1 hk1 hi hs
+
+/-- removing the metadata of a key that is not (or no longer) in the entity index -/
+theorem good_metaDel {s : Store} (hg : Good s) (k : Bytes)
+    (h : classify k = .embedding → idxGet s.vocab k = none) : Good (applyEntry s (.metaDel k)) := by
+  refine ⟨hg.nodup, ?_⟩
+  intro k1 id1 vec1 hk1 hi hs
+  simp only [applyEntry] at hi hs ⊢
+  by_cases e : k = k1
+  · subst e; rw [h hk1] at hi; cases hi
+  · rw [aget_aerase_ne _ _ _ e]
+    exact hg.slab k1 id1 vec1 hk1 hi hs
+
+/-- what the replayed store `P` and the store `L` of the writing session share: the metadata
+    map and WHICH `emb:` keys are in the entity index (not their ids — replay assigns its own) -/
+structure Sim (P L : Store) : Prop where
+  md : P.md = L.md
+  live : ∀ k, classify k = .embedding → (idxGet P.vocab k).isSome = (idxGet L.vocab k).isSome
+
+theorem sim_refl (s : Store) : Sim s s := ⟨rfl, fun _ _ => rfl⟩
+
+theorem applyEntry_vocab_embDel (s : Store) (id : Nat) : (applyEntry s (.embDel id)).vocab = s.vocab := rfl
+theorem applyEntry_vocab_metaDel (s : Store) (k : Bytes) : (applyEntry s (.metaDel k)).vocab = s.vocab := rfl
+theorem applyEntry_vocab_entRemove (s : Store) (k : Bytes) :
+    (applyEntry s (.entRemove k)).vocab = idxRemove s.vocab k := rfl
+
+theorem replay_cons (s : Store) (e : Entry) (es : List Entry) :
+    replay s (e :: es) = replay (applyEntry s e) es := rfl
+
+theorem replay_nil (s : Store) : replay s [] = s := rfl
+
+theorem replay_append (s : Store) (xs ys : List Entry) :
+    replay s (xs ++ ys) = replay (replay s xs) ys := by
+  simp [replay, List.foldl_append]
+
+/-- liveness of an `emb:` key after a put that goes through the index -/
+theorem putEmb_live (s : Store) (k k1 : Bytes) (v : Val) :
+    (idxGet (putEmb s k v).vocab k1).isSome = (decide (k = k1) || (idxGet s.vocab k1).isSome) := by
+  simp only [putEmb]
+  by_cases e : k = k1
+  · subst e; rw [idxGetOrCreate_get]; simp
+  · rw [idxGetOrCreate_get_ne _ _ _ e]; simp [e]
+
+/-- **one operation**: replaying its records over a store that agrees with the writer's on the
+    metadata map and on the set of indexed `emb:` keys keeps the overlay invariant after EVERY
+    record, and re-establishes the agreement at the end -/
+theorem sim_step {P L : Store} (hP : Good P) (hL : Good L) (hs : Sim P L) (op : Op) :
+    (∀ j, Good (replay P ((step L op).1.take j))) ∧ Sim (replay P (step L op).1) (step L op).2 := by
+  have hmd : (replay P (step L op).1).md = (step L op).2.md := by
+    rw [replay_md, hs.md, step_replay, step_md]
+  cases op with
+  | put k v =>
+    by_cases hc : isCacheKey k = true
+    · have hk : classify k = .cache := by simpa [isCacheKey] using hc
+      have h1 : (step L (.put k v)).1 = [] := by simp [step, putDurable, hc]
+      have h2 : (step L (.put k v)).2.vocab = L.vocab := by simp [step, putDurable, hc, put, hk]
+      rw [h1] at hmd ⊢
+      refine ⟨fun j => by simpa [replay_nil] using hP, hmd, ?_⟩
+      intro k1 hk1; rw [h2]; exact hs.live k1 hk1
+    · have hc0 : isCacheKey k = false := by simpa using hc
+      have hrec : ∀ j, replay P ((step L (.put k v)).1.take j) = P ∨
+          replay P ((step L (.put k v)).1.take j) = applyEntry P (.metaSet k v) := by
+        intro j
+        simp only [step, putDurable_fst, hc0, Bool.false_eq_true, if_false]
+        cases hv : v.emb with
+        | none =>
+          simp only []
+          match j with
+          | 0 => left; rfl
+          | j + 1 => right; simp [replay]
+        | some vec =>
+          simp only []
+          match j with
+          | 0 => left; rfl
+          | 1 => left; simp [replay, applyEntry]
+          | j + 2 => right; simp [replay, applyEntry]
+      have hfull : replay P (step L (.put k v)).1 = applyEntry P (.metaSet k v) := by
+        simp only [step, putDurable_fst, hc0, Bool.false_eq_true, if_false]
+        cases hv : v.emb <;> simp [replay, applyEntry, hv]
+      refine ⟨?_, hmd, ?_⟩
+      · intro j
+        rcases hrec j with h | h <;> rw [h]
+        · exact hP
+        · exact good_metaSet hP k v
+      · intro k1 hk1
+        rw [hfull, applyEntry_metaSet]
+        simp only [step]
+        by_cases hk : classify k = .embedding
+        · rw [putDurable_snd_emb L k v hk, if_pos (.inl hk), putEmb_live, putEmb_live, hs.live k1 hk1]
+        · have e : k ≠ k1 := by intro h; subst h; exact hk hk1
+          rw [putDurable_snd_plain L k v hk hc0]
+          simp only [hk, false_or]
+          have hP1 : ∀ b : Bool, (idxGet (if b = true then (idxGetOrCreate P.vocab k).2 else P.vocab) k1)
+              = idxGet P.vocab k1 := by
+            intro b; split
+            · exact idxGetOrCreate_get_ne _ _ _ e
+            · rfl
+          have hL1 : ∀ b : Bool, (idxGet (if b = true then (idxGetOrCreate L.vocab k).2 else L.vocab) k1)
+              = idxGet L.vocab k1 := by
+            intro b; split
+            · exact idxGetOrCreate_get_ne _ _ _ e
+            · rfl
+          rw [hL1]
+          split
+          · rw [putEmb_live]; simp [e, hs.live k1 hk1]
+          · exact hs.live k1 hk1
+  | delete k =>
+    have h1 : (step L (.delete k)).1 = (deleteDurable L k).1 := rfl
+    rw [step_delete_snd] at hmd ⊢
+    rw [h1] at hmd ⊢
+    by_cases hc : isCacheKey k = true
+    · have hk : classify k = .cache := by simpa [isCacheKey] using hc
+      have h1 : (deleteDurable L k).1 = [] := by simp [deleteDurable, hc]
+      have h2 : (delete L k).1.vocab = L.vocab := by unfold delete; split <;> simp [hk]
+      rw [h1] at hmd ⊢
+      refine ⟨fun j => by simpa [replay_nil] using hP, hmd, ?_⟩
+      intro k1 hk1; rw [h2]; exact hs.live k1 hk1
+    · have hc0 : isCacheKey k = false := by simpa using hc
+      rw [deleteDurable_fst, hc0] at hmd ⊢
+      simp only [Bool.false_eq_true, if_false] at hmd ⊢
+      cases hix : idxGet L.vocab k with
+      | none =>
+        simp only [hix, List.nil_append] at hmd ⊢
+        -- an `emb:` key that the writer did not have in the index is not in the replayed index either
+        have hnone : classify k = .embedding → idxGet P.vocab k = none := by
+          intro hk
+          have := hs.live k hk
+          rw [hix] at this
+          simpa using this
+        refine ⟨?_, hmd, ?_⟩
+        · intro j
+          match j with
+          | 0 => exact hP
+          | j + 1 => simpa [replay] using good_metaDel hP k hnone
+        · intro k1 hk1
+          show (idxGet P.vocab k1).isSome = _
+          rw [hs.live k1 hk1]
+          by_cases hk : classify k = .embedding
+          · rw [delete_emb L k hk]
+            simp only [delApplied, idxRemove, hix]
+          · rw [delete_plain L k hk hc0]
+      | some id =>
+        simp only [hix, List.cons_append, List.nil_append] at hmd ⊢
+        have g1 := good_embDel hP id
+        have g2 := good_entRemove g1 k
+        have g3 : Good (applyEntry (applyEntry (applyEntry P (.embDel id)) (.entRemove k)) (.metaDel k)) := by
+          apply good_metaDel g2 k
+          intro _
+          exact idxRemove_get_self _ _ hP.nodup
+        refine ⟨?_, hmd, ?_⟩
+        · intro j
+          match j with
+          | 0 => exact hP
+          | 1 => exact g1
+          | 2 => exact g2
+          | j + 3 => simpa [replay] using g3
+        · intro k1 hk1
+          show (idxGet (idxRemove P.vocab k) k1).isSome = _
+          by_cases e : k = k1
+          · subst e
+            rw [idxRemove_get_self _ _ hP.nodup, delete_emb L k hk1]
+            simp only [delApplied]
+            rw [idxRemove_get_self _ _ hL.nodup]
+          · rw [idxRemove_get_ne _ _ _ e, hs.live k1 hk1]
+            by_cases hk : classify k = .embedding
+            · rw [delete_emb L k hk]
+              simp only [delApplied]
+              rw [idxRemove_get_ne _ _ _ e]
+            · rw [delete_plain L k hk hc0]
+
+/-- **any record-prefix of the log of `ops` replays to a store that satisfies the overlay
+    invariant** (in particular a prefix that ends inside the records of one operation) -/
+theorem good_replay_take {P L : Store} (hP : Good P) (hL : Good L) (hs : Sim P L) (ops : List Op) (i : Nat) :
+    Good (replay P ((runOps L ops).1.take i)) := by
+  induction ops generalizing P L i with
+  | nil => simpa [runOps_nil, replay_nil] using hP
+  | cons op ops ih =>
+    obtain ⟨hpre, hsim⟩ := sim_step hP hL hs op
+    rw [runOps_cons]
+    by_cases hle : (step L op).1.length ≤ i
+    · rw [List.take_append, List.take_of_length_le hle, replay_append]
+      have hfull := hpre (step L op).1.length
+      rw [List.take_length] at hfull
+      exact ih hfull (good_step hL op) hsim _
+    · rw [List.take_append_of_le_length (by omega)]
+      exact hpre i
+
+/-! #### the property for the full observable image -/
+
+/-- **The property for one crash of a fresh store, full observable image**: the recovery function
+    `rec` (snapshot, log bytes) applied to the first `n` bytes of the log of `ops` succeeds with a
+    store whose `get` answers, for every key outside the `_cache:` class, exactly what the map
+    produced by the first `k` operations holds, and every operation whose records lie wholly
+    before the cut is among them. -/
+def RecoverIsPrefixFull (rec : Option Store → Bytes → Except RecErr Store) (crc : Bytes → Nat)
+    (enc : Entry → Bytes) (ops : List Op) (n : Nat) : Prop :=
+  ∃ k r, k ≤ ops.length ∧
+    rec none ((logBytes crc enc (runOps Store.empty ops).1).take n) = .ok r ∧
+    FullEq r (specRun [] (ops.take k)) ∧
+    ∀ a, a ≤ ops.length → (logBytes crc enc (runOps Store.empty (ops.take a)).1).length ≤ n → a ≤ k
+
+/-- The crash model of `Reach` without the two crash points "snapshot in place, checkpoint marker
+    absent or incomplete" (for those the full-image statement is not proved; the metadata-map
+    statement is: `recover_then_write`, `checkpoint_crash_safe`). -/
+inductive ReachF (crc : Bytes → Nat) (enc : Entry → Bytes) (dec : Bytes → Option Entry) :
+    Option Store → Bytes → Trace → Prop where
+  | init : ReachF crc enc dec none [] []
+  | round {snap f tr} (mem0 : Store) (ops : List Op) (acked n : Nat) :
+      ReachF crc enc dec snap f tr →
+      recover crc dec snap f = .ok mem0 →
+      Fits enc (runOps mem0 ops).1 →
+      (openRepair f).length ≤ n →
+      acked ≤ ops.length →
+      (openRepair f ++ logBytes crc enc (runOps mem0 (ops.take acked)).1).length ≤ n →
+      ReachF crc enc dec snap
+        ((openRepair f ++ logBytes crc enc (runOps mem0 ops).1).take n) (tr ++ [(ops, acked)])
+  | ckptMarked {snap f tr} (mem0 : Store) (ops : List Op) (id : Nat) :
+      ReachF crc enc dec snap f tr →
+      recover crc dec snap f = .ok mem0 →
+      Fits enc (runOps mem0 ops).1 →
+      (enc (.checkpoint id)).length < U32 →
+      ReachF crc enc dec (some (runOps mem0 ops).2)
+        (openRepair f ++ logBytes crc enc (runOps mem0 ops).1 ++ encodeRec crc (enc (.checkpoint id)))
+        (tr ++ [(ops, ops.length)])
+  | ckptDone {snap f tr} (mem0 : Store) (ops : List Op) :
+      ReachF crc enc dec snap f tr →
+      recover crc dec snap f = .ok mem0 →
+      Fits enc (runOps mem0 ops).1 →
+      ReachF crc enc dec (some (runOps mem0 ops).2) [] (tr ++ [(ops, ops.length)])
+
+section reachF
+variable {crc : Bytes → Nat} {enc : Entry → Bytes} {dec : Bytes → Option Entry}
+
+theorem reachF_reach {snap : Option Store} {f : Bytes} {tr : Trace}
+    (h : ReachF crc enc dec snap f tr) : Reach crc enc dec snap f tr := by
+  induction h with
+  | init => exact .init
+  | round mem0 ops acked n _ hr hfit hn hacked hack ih => exact .round mem0 ops acked n ih hr hfit hn hacked hack
+  | ckptMarked mem0 ops id _ hr hfit hid ih =>
+    have := Reach.ckptCrash mem0 ops id (encodeRec crc (enc (.checkpoint id))).length ih hr hfit hid
+    rwa [List.take_length] at this
+  | ckptDone mem0 ops _ hr hfit ih => exact .ckptDone mem0 ops ih hr hfit
+
+/-- what recovery computes after a round, in terms of the store the round started from -/
+theorem recover_round (hc : CodecOK crc enc dec) {snap : Option Store} {f : Bytes} {H : List Op}
+    (hinv : Inv crc enc snap f H) (mem0 : Store) (hr : recover crc dec snap f = .ok mem0)
+    (ops : List Op) (n : Nat) (hfit : Fits enc (runOps mem0 ops).1) (hn : (openRepair f).length ≤ n) :
+    ∃ i, recover crc dec snap ((openRepair f ++ logBytes crc enc (runOps mem0 ops).1).take n)
+      = .ok (replay mem0 ((runOps mem0 ops).1.take i)) := by
+  obtain ⟨S, hopen, hSfit, hSno, hmem, -⟩ := inv_open hc hinv hr
+  rw [hopen] at hn ⊢
+  have hplain := runOps_plain mem0 ops
+  obtain ⟨i, -, htake, -⟩ := take_split (crc := crc) (enc := enc) S (runOps mem0 ops).1 n hn
+  refine ⟨i, ?_⟩
+  rw [← logBytes_append, recover_take_plain hc snap _ n (hSfit.append hfit)
+    (hSno.append (fun e he => (hplain e he).1)), htake,
+    afterLastCkpt_append_plain _ _ (fun e he => (hplain e (List.mem_of_mem_take he)).2),
+    replay_append, ← hmem]
+
+/-- recovery from a log that ends with a complete checkpoint marker returns the snapshot -/
+theorem recover_marked (hc : CodecOK crc enc dec) (L : Store) (R : List Entry) (id : Nat)
+    (hfit : Fits enc R) (hno : NoTx R) (hid : (enc (.checkpoint id)).length < U32) :
+    recover crc dec (some L) (logBytes crc enc R ++ encodeRec crc (enc (.checkpoint id))) = .ok L := by
+  have h := recover_full hc (some L) (R ++ [.checkpoint id])
+    (hfit.append (by intro e he; simp at he; subst he; exact hid))
+    (hno.append (by intro e he; simp at he; subst he; rfl))
+  rw [logBytes_append, logBytes_singleton, afterLastCkpt_append_ckpt] at h
+  exact h
+
+theorem reachF_good (hc : CodecOK crc enc dec) {snap : Option Store} {f : Bytes} {tr : Trace}
+    (h : ReachF crc enc dec snap f tr) : ∀ r, recover crc dec snap f = .ok r → Good r := by
+  induction h with
+  | init =>
+    intro r hr
+    rw [recover_nil] at hr
+    injection hr with hr
+    subst hr
+    exact good_empty
+  | @round snap' f' tr' mem0 ops acked n hprev hr hfit hn _ _ ih =>
+    intro r hr'
+    obtain ⟨H, -, hinv⟩ := reach_inv hc (reachF_reach hprev)
+    obtain ⟨i, hi⟩ := recover_round hc hinv mem0 hr ops n hfit hn
+    rw [hi] at hr'
+    injection hr' with hr'
+    subst hr'
+    have hg := ih mem0 hr
+    exact good_replay_take hg hg (sim_refl mem0) ops i
+  | @ckptMarked snap' f' tr' mem0 ops id hprev hr hfit hid ih =>
+    intro r hr'
+    obtain ⟨H, -, hinv⟩ := reach_inv hc (reachF_reach hprev)
+    obtain ⟨S, hopen, hSfit, hSno, -, -⟩ := inv_open hc hinv hr
+    have hplain := runOps_plain mem0 ops
+    rw [hopen, ← logBytes_append, recover_marked hc _ _ id (hSfit.append hfit)
+      (hSno.append (fun e he => (hplain e he).1)) hid] at hr'
+    injection hr' with hr'
+    subst hr'
+    exact good_runOps (ih mem0 hr) ops
+  | ckptDone mem0 ops _ hr _ ih =>
+    intro r hr'
+    rw [recover_nil] at hr'
+    injection hr' with hr'
+    subst hr'
+    exact good_runOps (ih mem0 hr) ops
+
+end reachF
+
+/-! #### log rotation -/
+
+theorem openRepair_nil : openRepair [] = [] := by simp [openRepair]
+
+/-- the writer state after logging `es` under `Immediate` sync with `max_size_bytes = maxSize`
+    (`write_entry_no_sync` rotates before a record that would exceed the limit) -/
+def rotLog (crc : Bytes → Nat) (enc : Entry → Bytes) (maxSize : Nat) (es : List Entry) : Wal :=
+  es.foldl (fun w e => Wal.appendRot .immediate maxSize w (encodeRec crc (enc e))) (Wal.openOn [])
+
+/-- **The property across log rotation**: every operation returned under `Immediate` sync (so all
+    are acknowledged) and the crash keeps the whole live log file; recovery, which reads only
+    that file, must yield the map of ALL the operations. -/
+def RotationKeepsAcked (crc : Bytes → Nat) (enc : Entry → Bytes) (dec : Bytes → Option Entry)
+    (maxSize : Nat) (ops : List Op) : Prop :=
+  ∃ r, recover crc dec none (rotLog crc enc maxSize (runOps Store.empty ops).1).file = .ok r ∧
+    MetaEq r.md (specRun [] ops)
+
+theorem foldl_appendRot_no_rotation (crc : Bytes → Nat) (enc : Entry → Bytes) (maxSize : Nat)
+    (es : List Entry) (w : Wal) (h : (w.file ++ logBytes crc enc es).length ≤ maxSize) :
+    (es.foldl (fun w e => Wal.appendRot .immediate maxSize w (encodeRec crc (enc e))) w).file
+      = w.file ++ logBytes crc enc es := by
+  induction es generalizing w with
+  | nil => simp [logBytes_nil]
+  | cons e es ih =>
+    have hsplit : logBytes crc enc (e :: es) = encodeRec crc (enc e) ++ logBytes crc enc es := by
+      have : e :: es = [e] ++ es := rfl
+      rw [this, logBytes_append, logBytes_singleton]
+    rw [hsplit] at h ⊢
+    have hno : ¬ (w.file.length + (encodeRec crc (enc e)).length > maxSize) := by
+      simp only [List.length_append] at h; omega
+    have hstep : Wal.appendRot .immediate maxSize w (encodeRec crc (enc e))
+        = Wal.append .immediate w (encodeRec crc (enc e)) := by
+      unfold Wal.appendRot; rw [if_neg hno]
+    rw [List.foldl_cons, hstep, ih]
+    · rw [Wal.append_file, List.append_assoc]
+    · rw [Wal.append_file, List.append_assoc]; exact h
+
+/-! #### the four steps of `checkpoint`, whatever the sync mode -/
+
+theorem Sys.crashFile_sync (sy : Sys) (n : Nat) : sy.sync.crashFile n = sy.wal.file := by
+  simp only [Sys.crashFile, Sys.sync, Wal.sync]
+  exact List.take_of_length_le (Nat.le_max_right _ _)
+
+theorem Wal.append_synced (mode : SyncMode) (w : Wal) (b : Bytes) :
+    (Wal.append mode w b).syncedLen = (w.file ++ b).length ∨
+    (Wal.append mode w b).syncedLen = w.syncedLen := by
+  unfold Wal.append
+  cases mode with
+  | immediate => left; rfl
+  | manual => right; rfl
+  | batched m =>
+    simp only []
+    by_cases h : decide (w.pending + 1 ≥ m) = true
+    · left; rw [if_pos h]
+    · right; rw [if_neg h]
+
+/-- after the marker step, a crash leaves the synced log plus some byte prefix of the marker -/
+theorem Sys.crashFile_marker (crc : Bytes → Nat) (enc : Entry → Bytes) (sy : Sys) (id n : Nat)
+    (h : sy.wal.syncedLen = sy.wal.file.length) :
+    ∃ m, (sy.ckptMarker crc enc id).crashFile n
+      = sy.wal.file ++ (encodeRec crc (enc (.checkpoint id))).take m := by
+  have hfile : (sy.ckptMarker crc enc id).wal.file = sy.wal.file ++ encodeRec crc (enc (.checkpoint id)) := by
+    simp only [Sys.ckptMarker, Sys.log, List.foldl_cons, List.foldl_nil, Wal.append_file]
+  have hsl := Wal.append_synced sy.mode sy.wal (encodeRec crc (enc (.checkpoint id)))
+  have hsl' : (sy.ckptMarker crc enc id).wal.syncedLen
+      = (Wal.append sy.mode sy.wal (encodeRec crc (enc (.checkpoint id)))).syncedLen := by
+    simp only [Sys.ckptMarker, Sys.log, List.foldl_cons, List.foldl_nil]
+  unfold Sys.crashFile
+  rw [hfile, hsl']
+  rcases hsl with e | e
+  · refine ⟨(encodeRec crc (enc (.checkpoint id))).length, ?_⟩
+    rw [e, List.take_length, List.take_of_length_le (Nat.le_max_right _ _)]
+  · rw [e, h]
+    refine ⟨max n sy.wal.file.length - sy.wal.file.length, ?_⟩
+    have : max n sy.wal.file.length = sy.wal.file.length + (max n sy.wal.file.length - sy.wal.file.length) := by
+      have := Nat.le_max_right n sy.wal.file.length; omega
+    rw [this, take_length_add_append]
+    congr 2
+    omega
+
 /-! #### concrete witnesses and the toy codec -/
 
 theorem exists_ok_of_md {x : Except RecErr Store} {m : List (Bytes × Val)}
@@ -965,5 +1870,17 @@ theorem exists_ok_of_get (x : Except RecErr Store) (k : Bytes) (v : Option Val)
   cases x with
   | error e => simp [recoverGetIs] at h
   | ok r => exact ⟨r, rfl, by simpa [recoverGetIs] using h⟩
+
+/-- boolean form of "the recovery succeeds with a store satisfying `p`" (for concrete witnesses) -/
+def okAnd (x : Except RecErr Store) (p : Store → Bool) : Bool :=
+  match x with
+  | .ok r => p r
+  | .error _ => false
+
+theorem exists_ok_of_okAnd {x : Except RecErr Store} {p : Store → Bool} (h : okAnd x p = true) :
+    ∃ r, x = .ok r ∧ p r = true := by
+  cases x with
+  | error e => simp [okAnd] at h
+  | ok r => exact ⟨r, rfl, h⟩
 
 end Neumann.Durable
